@@ -16,6 +16,11 @@
                                    range the other piece does not write, commutes with any operation of that piece's
                                    critical section.
 
+    R5  `C05_segment_stable`, `C05_verified_stable`  lifted to the "already there" test: a piece that VERIFIES in
+                                   the export tree (`VerE`) still verifies after any single byte operation of another
+                                   piece's section that spares its segments (`ByteOp.Spares`); a write that does not
+                                   spare them breaks the verification (last example).
+
   The side conditions are exact: the examples after each theorem show the read changing when one is dropped.
 -/
 import TB.Props.C05writes
@@ -72,14 +77,20 @@ theorem C05_read_setLen (fs : Fs) (i n off len : Nat)
 /-- without "inside `n`": the read is cut -/
 example : ((sl 1 [7, 8]).drop 0).take 2 = [7] := by decide
 
+/-- the operation `a` of another piece's critical section spares the range `[off, off+len)` of an image of declared
+    length `L`: it is the section's `set_len L`, or its write of a range disjoint from `[off, off+len)` (the layout
+    gives two pieces disjoint ranges of an image: `C05_compat_of_layout`) -/
+def ByteOp.Spares (a : ByteOp) (L off len : Nat) : Prop :=
+  match a with
+  | .setLen n => n = L
+  | .writeAt o d => off + len ≤ o ∨ o + d.length ≤ off
+
 /-- R4: a read of `[off, off+len)` of inode `i`, inside the file and inside the declared length `L`, commutes with
-    every byte operation of another piece's critical section on ANY inode `j`: its `set_len L`, or its write of a
-    range disjoint from the read (the layout gives two pieces disjoint ranges of an image: `C05_compat_of_layout`). -/
+    every byte operation of another piece's critical section on ANY inode `j`, provided that, when it acts on the
+    same inode, it spares the range. -/
 theorem C05_read_byteop_commutes (fs : Fs) (a : ByteOp) (i j L off len : Nat)
     (hin : off + len ≤ (fs.content i).length) (hL : off + len ≤ L)
-    (ha : i = j → match a with
-      | .setLen n => n = L
-      | .writeAt o d => off + len ≤ o ∨ o + d.length ≤ off) :
+    (ha : i = j → a.Spares L off len) :
     (a.app fs j).readAt i off len = fs.readAt i off len := by
   by_cases hij : i = j
   · subst hij
@@ -93,5 +104,114 @@ theorem C05_read_byteop_commutes (fs : Fs) (a : ByteOp) (i j L off len : Nat)
 
 /-- non-vacuity: a two-byte image, a read of its first byte, a write of its second -/
 example : (ByteOp.app (.writeAt 1 [9]) (⟨[], [], [(0, [7, 8])], 1⟩ : Fs) 0).readAt 0 0 1 = [7] := by decide
+
+/-! ### R5 — the "already there" test of a piece against another piece's byte operations -/
+
+theorem ByteOp.look_app (a : ByteOp) (fs : Fs) (j : Nat) (p : Path) : (a.app fs j).look p = fs.look p := by
+  cases a <;> rfl
+
+/-- the read of a full-length segment stays full-length: the operation of the other piece does not cut the file
+    below the end of the segment -/
+theorem ByteOp.length_app (a : ByteOp) (fs : Fs) (i j L e : Nat) (hin : e ≤ (fs.content i).length) (hL : e ≤ L)
+    (ha : i = j → ∀ n, a = .setLen n → n = L) :
+    e ≤ ((a.app fs j).content i).length := by
+  by_cases hij : i = j
+  · subst hij
+    cases a with
+    | setLen n =>
+      have e' : n = L := ha rfl n rfl
+      subst e'
+      simp only [ByteOp.app, setLen_eq, content_setData, if_true, sl_length]; exact hL
+    | writeAt o d =>
+      simp only [ByteOp.app, writeAt_eq, content_setData, if_true, wr_length]; omega
+  · cases a <;> simp only [ByteOp.app, setLen_eq, writeAt_eq, content_setData, if_neg hij] <;> exact hin
+
+/-- R5a: the bytes of a segment found (full-length) at its export image are found again, the same, after any byte
+    operation of another piece's critical section — on whichever inode `j` it acts: `set_len` to the declared
+    length `L` of that image, or a write to a range disjoint from the segment. -/
+theorem C05_segment_stable (fs : Fs) (a : ByteOp) (j L : Nat) (s : WSeg) (b : Bytes)
+    (hs : segBytesIn fs s = some b) (hL : s.off + s.len ≤ L)
+    (ha : fs.look s.ent.fullTarget = .file j → a.Spares L s.off s.len) :
+    segBytesIn (a.app fs j) s = some b := by
+  unfold segBytesIn at hs ⊢
+  by_cases hp : s.ent.isPad
+  · simpa only [if_pos hp] using hs
+  · simp only [if_neg hp, ByteOp.look_app] at hs ⊢
+    cases hl : fs.look s.ent.fullTarget with
+    | file i =>
+      simp only [hl] at hs ⊢
+      by_cases hin : s.off + s.len ≤ (fs.content i).length
+      · simp only [if_pos hin, Option.some.injEq] at hs
+        have ha' : i = j → a.Spares L s.off s.len := fun e => ha (by rw [hl, e])
+        have hlen : s.off + s.len ≤ ((a.app fs j).content i).length :=
+          ByteOp.length_app a fs i j L _ hin hL (fun e n en => by
+            have := ha' e
+            subst en
+            exact this)
+        rw [if_pos hlen, C05_read_byteop_commutes fs a i j L s.off s.len hin hL ha', hs]
+      · simp only [if_neg hin] at hs
+        exact absurd hs (by simp)
+    | notFound => simp only [hl] at hs; exact absurd hs (by simp)
+    | dir => simp only [hl] at hs; exact absurd hs (by simp)
+    | notDir => simp only [hl] at hs; exact absurd hs (by simp)
+
+theorem mapM_segBytesIn_stable (fs : Fs) (a : ByteOp) (j L : Nat) (segs : List WSeg) (parts : List Bytes)
+    (hL : ∀ s ∈ segs, fs.look s.ent.fullTarget = .file j → s.off + s.len ≤ L ∧ a.Spares L s.off s.len)
+    (h : segs.mapM (segBytesIn fs) = some parts) :
+    segs.mapM (segBytesIn (a.app fs j)) = some parts := by
+  induction segs generalizing parts with
+  | nil => simpa using h
+  | cons s rest ih =>
+    rw [List.mapM_cons] at h ⊢
+    cases hs : segBytesIn fs s with
+    | none => rw [hs] at h; simp at h
+    | some b =>
+      rw [hs] at h
+      cases hr : rest.mapM (segBytesIn fs) with
+      | none => rw [hr] at h; simp at h
+      | some ps =>
+        rw [hr] at h
+        have hs' : segBytesIn (a.app fs j) s = some b := by
+          by_cases hj : fs.look s.ent.fullTarget = .file j
+          · have := hL s (List.mem_cons_self) hj
+            exact C05_segment_stable fs a j L s b hs this.1 (fun _ => this.2)
+          · -- the operation acts on another inode: take the segment's own end as "declared length"
+            exact C05_segment_stable fs a j (s.off + s.len) s b hs (Nat.le_refl _) (fun e => absurd e hj)
+        rw [hs', ih ps (fun t ht => hL t (List.mem_cons_of_mem _ ht)) hr]
+        exact h
+
+/-- R5: A PIECE THAT VERIFIES IN THE EXPORT TREE STILL VERIFIES after any single byte operation of another piece's
+    critical section (acting on inode `j`, an image of declared length `L`), provided the operation spares the
+    segments of the piece that lie on that image. So the "already there" test of one worker gives the same answer
+    `true` whether it runs before or after the other worker's operation. -/
+theorem C05_verified_stable (H : Bytes → Bytes) (fs : Fs) (a : ByteOp) (j L : Nat) (w : Work)
+    (hL : ∀ s ∈ w.segs, fs.look s.ent.fullTarget = .file j → s.off + s.len ≤ L ∧ a.Spares L s.off s.len)
+    (h : VerE H fs w) : VerE H (a.app fs j) w := by
+  obtain ⟨parts, hm, hh⟩ := h
+  exact ⟨parts, mapM_segBytesIn_stable fs a j L w.segs parts hL hm, hh⟩
+
+/-! #### non-vacuity of R5: the image `d/x` holds `[7, 8]`; the piece on its first byte verifies (with `H = id`);
+    the other piece's write of the second byte spares it -/
+namespace C05r
+open TB.C05w
+def fsR : Fs := ⟨[(tx, 0)], [[[100]]], [(0, [7, 8])], 1⟩
+def wR : Work := ⟨[⟨1, 0, ex⟩], [7]⟩
+example : segBytesIn fsR ⟨1, 0, ex⟩ = some [7] := by decide
+theorem verR : VerE id fsR wR := ⟨[[7]], by decide, by decide⟩
+example : VerE id ((ByteOp.writeAt 1 [9]).app fsR 0) wR :=
+  C05_verified_stable id fsR (.writeAt 1 [9]) 0 2 wR
+    (by intro s hs _
+        have : s = ⟨1, 0, ex⟩ := by simpa [wR] using hs
+        subst this
+        exact ⟨by decide, Or.inl (by decide)⟩) verR
+/-- and a write that does NOT spare the segment breaks the verification: the hypothesis is needed -/
+example : ¬ VerE id ((ByteOp.writeAt 0 [9]).app fsR 0) wR := by
+  rintro ⟨parts, hm, hh⟩
+  have : parts = [[9]] := by
+    have e : wR.segs.mapM (segBytesIn ((ByteOp.writeAt 0 [9]).app fsR 0)) = some [[9]] := by decide
+    rw [e] at hm; exact (Option.some.inj hm).symm
+  subst this
+  exact absurd hh (by decide)
+end C05r
 
 end TB
